@@ -92,8 +92,9 @@ def sliceReadBits (bs : List Byte) (pos : Nat) (dst : List Byte) :=
 
 def sliceReadBitsWithOffset (bs : List Byte) (pos : Nat) (dst : List Byte) (off : Nat) :
     Outcome (List Byte × Nat) := do
-  let len ← uSub (dst.length * Consts.BYTE_LEN) off
-  sliceReadBitsWithOffsetLen bs pos dst off len
+  -- `checked_sub(..).ok_or_else(insufficient_space_in_destination_buffer)`
+  failIf (decide (dst.length * Consts.BYTE_LEN < off)) .insufficientSpace
+  sliceReadBitsWithOffsetLen bs pos dst off (dst.length * Consts.BYTE_LEN - off)
 
 def sliceReadBitsWithLen (bs : List Byte) (pos : Nat) (dst : List Byte) (len : Nat) :=
   sliceReadBitsWithOffsetLen bs pos dst 0 len
@@ -111,8 +112,9 @@ def sliceWriteBitsWithOffsetLen (bs : List Byte) (pos : Nat) (src : List Byte) (
 
 def sliceWriteBitsWithOffset (bs : List Byte) (pos : Nat) (src : List Byte) (off : Nat) :
     Outcome (List Byte × Nat) := do
-  let len ← uSub (src.length * Consts.BYTE_LEN) off
-  sliceWriteBitsWithOffsetLen bs pos src off len
+  -- `checked_sub(..).ok_or_else(insufficient_data_in_source_buffer)`
+  failIf (decide (src.length * Consts.BYTE_LEN < off)) .endOfStream
+  sliceWriteBitsWithOffsetLen bs pos src off (src.length * Consts.BYTE_LEN - off)
 
 def sliceWriteBits (bs : List Byte) (pos : Nat) (src : List Byte) :=
   sliceWriteBitsWithOffset bs pos src 0
